@@ -32,3 +32,90 @@ Proof.
   - exact (state_not_under_timer_scan (key_group count) g k ns e).
 Qed.
 Print Assumptions timer_keys_disjoint.
+
+(* ---------------------------------------------------------------- keyed_state_is_map
+   The specification machine [o_run] (Proofs/C03_Store.v) keeps nothing but the list of responses the handler has
+   returned since the start - a checkpoint saves that list, a redeploy from it puts it back - and hands over, for
+   every distinct key k of a batch, [view (fm_of_responses k log)]: the fold, in result order, of every put and
+   delete of every earlier response whose key result is for k, on an empty map, grouped by namespace. No other key,
+   no timer, nothing deleted or overwritten can be in it by construction.
+
+   Theorem: for EVERY DKV implementation K that refines the sorted-map specification (hypotheses = the statements of
+   C07/C18 for put/delete/scan and of C08 for checkpoint/restore), every key-group function, every handler (an
+   arbitrary function from request to response), every watermark guard and every history of batches (any batching),
+   timer removals, checkpoints and redeploys: the model of the operator never panics and the sequence of
+   (request, response) pairs - in particular the KeyStates of every request - is exactly that of the specification
+   machine. Guards: namespaces < 256 bytes, subject keys < 2^32 bytes. *)
+From RV Require Import Proofs.C03_Store.
+
+Theorem keyed_state_is_map :
+  forall (K : KV) (contents : kv_st K -> kvlist),
+    (forall k v s, contents (kv_put K k v s) = sm_put k v (contents s)) ->
+    (forall k s, contents (kv_del K k s) = sm_del k (contents s)) ->
+    (forall p s, kv_scan K p s = sm_scan p (contents s)) ->
+    (forall s, contents (kv_restore K s) = contents s) ->
+  forall (count : N) (accept : bytes -> Z -> bool) (h : handler) (steps : list step) (s0 : kv_st K),
+    contents s0 = [] -> handler_ok h -> Forall step_ok steps ->
+    exists y, run K (key_group count) accept h (init_sys K s0) steps = Some y /\
+              sy_trace y = o_trace (o_run h o_init steps).
+Proof.
+  intros K contents Hp Hd Hs Hr count accept h steps s0.
+  exact (refines_per_key_map K contents Hp Hd Hs Hr (key_group count) accept h steps s0).
+Qed.
+Print Assumptions keyed_state_is_map.
+
+(* the composition is not vacuous: the list-based DKV specification satisfies the four hypotheses *)
+Theorem keyed_state_is_map_over_spec :
+  forall (count : N) (accept : bytes -> Z -> bool) (h : handler) (steps : list step),
+    handler_ok h -> Forall step_ok steps ->
+    exists y, run list_kv (key_group count) accept h (init_sys list_kv []) steps = Some y /\
+              sy_trace y = o_trace (o_run h o_init steps).
+Proof. intros count. exact (refines_per_key_map_list (key_group count)). Qed.
+Print Assumptions keyed_state_is_map_over_spec.
+
+(* ---------------------------------------------------------------- namespaces_contiguous
+   Whatever responses the handler returned (guards as above), the state handed over for k - the grouping of the
+   ascending flat map - contains every live entry exactly once in stored-key order, lists every namespace exactly
+   once and never an empty namespace. *)
+From RV Require Import Proofs.C03_View.
+
+Theorem namespaces_contiguous : forall k log,
+  Forall resp_ok log ->
+  let m := fm_of_responses k log in
+  ungroup (view m) = map unflat m /\ NoDup (map fst (view m)) /\ Forall (fun nse : ns_state => snd nse <> []) (view m).
+Proof. exact namespaces_contiguous_fold. Qed.
+Print Assumptions namespaces_contiguous.
+
+(* the fold of mutations is a finite map: the latest put wins, a deleted entry stays absent, and a mutation of one
+   (namespace, entry key) changes no other - so overwritten or deleted entries cannot reappear in [view] *)
+Theorem fold_is_a_map : forall (x y : ekey) v m,
+  fm_find x (fm_put x v m) = Some v /\
+  (x <> y -> fm_find y (fm_put x v m) = fm_find y m) /\
+  (fm_good m -> ns_ok (fst x) -> fm_find x (fm_del x m) = None) /\
+  (x <> y -> fm_find y (fm_del x m) = fm_find y m).
+Proof.
+  intros x y v m. split; [apply fm_find_put_same|]. split; [apply fm_find_put_other|].
+  split; [apply fm_find_del_same|apply fm_find_del_other].
+Qed.
+Print Assumptions fold_is_a_map.
+
+(* ---------------------------------------------------------------- non-vacuity: hypotheses are satisfiable, the model computes *)
+Example ex_handler_ok : handler_ok (fun rq => [{| kr_key := [1]; kr_timers := [5%Z]; kr_muts := [([], [MPut [] [7]; MDel [9]])] |}]).
+Proof. intros rq. repeat constructor. Qed.
+
+Definition ex_handler : handler := fun rq =>
+  match rq_states rq with
+  | (k, []) :: _ => [{| kr_key := k; kr_timers := [1%Z]; kr_muts := [([1], [MPut [2] [3]]); ([], [MPut [] []])] |}]
+  | (k, _) :: _ => [{| kr_key := k; kr_timers := []; kr_muts := [([1], [MDel [2]])] |}]
+  | [] => []
+  end.
+
+Example ex_run :
+  option_map (fun y => map (fun rr => rq_states (fst rr)) (sy_trace y))
+    (run list_kv (key_group 7) (fun _ _ => true) ex_handler (init_sys list_kv [])
+       [SBatch [([97], []); ([97; 98], []); ([97], [])]; SCkpt 1; SBatch [([97], [])]; SBatch [([97], [])]; SRestore 1; SBatch [([97], [])]])
+  = Some [ [([97], []); ([97; 98], [])];
+           [([97], [([], [([], [])]); ([1], [([2], [3])])])];
+           [([97], [([], [([], [])])])];
+           [([97], [([], [([], [])]); ([1], [([2], [3])])])] ].
+Proof. vm_compute. reflexivity. Qed.
